@@ -241,28 +241,4 @@ func init() {
 		return Tuple{in.tb.BV(64, 2), nilErr}
 	})
 
-	// JSON of values whose content no kernel depends on (segment statistics, updated-field info)
-	opaqueJSON := func(t types.Type) bool {
-		s := t.String()
-		return s == "map[string]map[string]uint64" || strings.Contains(s, "UpdateFieldInfo")
-	}
-	reg("encoding/json.Marshal", func(in *Interp, caller *frame, pos token.Pos, fn *ssa.Function, args []Value) Value {
-		i := args[0].(Iface)
-		if i.T == nil || !opaqueJSON(i.T) {
-			unsupported("json.Marshal of %v (only opaque statistics values are modelled)", i.T)
-		}
-		in.noteUsed("json of segment statistics is opaque")
-		return Tuple{Slice{in.tb.BV(8, '{'), in.tb.BV(8, '}')}, nilErr}
-	})
-	reg("encoding/json.Unmarshal", func(in *Interp, caller *frame, pos token.Pos, fn *ssa.Function, args []Value) Value {
-		i := args[1].(Iface)
-		if i.T == nil {
-			unsupported("json.Unmarshal into nil")
-		}
-		pt, ok := i.T.(*types.Pointer)
-		if !ok || !opaqueJSON(pt.Elem()) {
-			unsupported("json.Unmarshal into %v (only opaque statistics values are modelled)", i.T)
-		}
-		return nilErr
-	})
 }
